@@ -1,0 +1,72 @@
+//go:build verif
+
+// Verification contracts (comments only; compiled only with -tags verif).
+// Checked by /verif/bin/govc; see /verif/DESIGN.md.
+
+package immediate
+
+//@ type Service
+//@   // established by New (parseAndCheckParameters rejects nil for each of these)
+//@   valid self.clientMonitor != nil && self.attestationsSubmitter != nil && self.proposalSubmitter != nil && self.beaconCommitteeSubscriptionsSubmitter != nil && self.aggregateAttestationsSubmitter != nil && self.proposalPreparationsSubmitter != nil && self.syncCommitteeMessagesSubmitter != nil && self.syncCommitteeSubscriptionsSubmitter != nil && self.syncCommitteeContributionsSubmitter != nil
+//@
+//@ // ---- C08 for the single-node submitter: the node is offered the whole submission exactly once, and success is
+//@ // reported exactly when the node accepted it; an empty submission is refused without asking the node ----
+//@ spec func accepted() bool
+//@
+//@ func (*Service).SubmitProposal
+//@   requires s != nil
+//@   assumes call SubmitProposal#1 (err): (err == nil) == accepted()
+//@   at call SubmitProposal#1: assert arg1 != nil && arg1.Proposal == proposal
+//@   ensures proposal != nil ==> calls(SubmitProposal) == 1 && ((result == nil) <==> accepted())
+//@   ensures !(proposal != nil) ==> calls(SubmitProposal) == 0 && result != nil
+//@
+//@ func (*Service).SubmitAttestations
+//@   requires s != nil
+//@   assumes call SubmitAttestations#1 (err): (err == nil) == accepted()
+//@   at call SubmitAttestations#1: assert arg1 == attestations
+//@   ensures len(attestations) > 0 ==> calls(SubmitAttestations) == 1 && ((result == nil) <==> accepted())
+//@   ensures !(len(attestations) > 0) ==> calls(SubmitAttestations) == 0 && result != nil
+//@
+//@ func (*Service).SubmitBeaconCommitteeSubscriptions
+//@   requires s != nil
+//@   // built by Vouch's own subscriber
+//@   requires forall k int :: 0 <= k && k < len(subscriptions) ==> subscriptions[k] != nil
+//@   assumes call SubmitBeaconCommitteeSubscriptions#1 (err): (err == nil) == accepted()
+//@   at call SubmitBeaconCommitteeSubscriptions#1: assert arg1 == subscriptions
+//@   ensures len(subscriptions) > 0 ==> calls(SubmitBeaconCommitteeSubscriptions) == 1 && ((result == nil) <==> accepted())
+//@   ensures !(len(subscriptions) > 0) ==> calls(SubmitBeaconCommitteeSubscriptions) == 0 && result != nil
+//@
+//@ func (*Service).SubmitAggregateAttestations
+//@   requires s != nil
+//@   assumes call SubmitAggregateAttestations#1 (err): (err == nil) == accepted()
+//@   at call SubmitAggregateAttestations#1: assert arg1 == aggregates
+//@   ensures len(aggregates) > 0 ==> calls(SubmitAggregateAttestations) == 1 && ((result == nil) <==> accepted())
+//@   ensures !(len(aggregates) > 0) ==> calls(SubmitAggregateAttestations) == 0 && result != nil
+//@
+//@ func (*Service).SubmitProposalPreparations
+//@   requires s != nil
+//@   assumes call SubmitProposalPreparations#1 (err): (err == nil) == accepted()
+//@   at call SubmitProposalPreparations#1: assert arg1 == preparations
+//@   ensures len(preparations) > 0 ==> calls(SubmitProposalPreparations) == 1 && ((result == nil) <==> accepted())
+//@   ensures !(len(preparations) > 0) ==> calls(SubmitProposalPreparations) == 0 && result != nil
+//@
+//@ func (*Service).SubmitSyncCommitteeMessages
+//@   requires s != nil
+//@   assumes call SubmitSyncCommitteeMessages#1 (err): (err == nil) == accepted()
+//@   at call SubmitSyncCommitteeMessages#1: assert arg1 == messages
+//@   ensures len(messages) > 0 ==> calls(SubmitSyncCommitteeMessages) == 1 && ((result == nil) <==> accepted())
+//@   ensures !(len(messages) > 0) ==> calls(SubmitSyncCommitteeMessages) == 0 && result != nil
+//@
+//@ func (*Service).SubmitSyncCommitteeSubscriptions
+//@   requires s != nil
+//@   assumes call SubmitSyncCommitteeSubscriptions#1 (err): (err == nil) == accepted()
+//@   at call SubmitSyncCommitteeSubscriptions#1: assert arg1 == subscriptions
+//@   ensures len(subscriptions) > 0 ==> calls(SubmitSyncCommitteeSubscriptions) == 1 && ((result == nil) <==> accepted())
+//@   ensures !(len(subscriptions) > 0) ==> calls(SubmitSyncCommitteeSubscriptions) == 0 && result != nil
+//@
+//@ func (*Service).SubmitSyncCommitteeContributions
+//@   requires s != nil
+//@   assumes call SubmitSyncCommitteeContributions#1 (err): (err == nil) == accepted()
+//@   at call SubmitSyncCommitteeContributions#1: assert arg1 == contributionAndProofs
+//@   ensures len(contributionAndProofs) > 0 ==> calls(SubmitSyncCommitteeContributions) == 1 && ((result == nil) <==> accepted())
+//@   ensures !(len(contributionAndProofs) > 0) ==> calls(SubmitSyncCommitteeContributions) == 0 && result != nil
